@@ -6,15 +6,16 @@
     generator).  Proofs in Proofs/Sampling*.v.
     "probability of an event" = count_where event (all_choices bounds) / length (all_choices bounds).
 
-    The property is FALSE of the code as written for the two reservoir loops without replacement
-    (rand.Intn(totaltrees) / rand.Intn(i) instead of i+1) and for the rooted uniform generator:
-    see the [_refuted] theorems; the positive reservoir theorem is stated for the textbook index
-    [std_bound] (rand.Intn(i+1)), the loop being parameterised by the index expression. *)
+    The property is FALSE of the code for the rooted uniform generator (open finding, see the
+    [_refuted] theorems at the end).  The two reservoir loops without replacement were false as
+    first read (rand.Intn(totaltrees) / rand.Intn(i), [go_bound]) and were fixed in /repo
+    (202a79d, 4c6febb) to rand.Intn(i+1) ([std_bound] = [code_bound]); the statements about the
+    old expression are kept, labelled [old_index], as the record of the defect. *)
 From Coq Require Import String ZArith QArith Bool Arith List Permutation.
 From GT Require Import Base.UTree Spec.Obs Spec.GenShape Spec.Counting Model.Reroot Model.Rand Model.Rand2
      Model.TreeGen Model.Sampling
      Proofs.SamplingBase Proofs.SamplingPerm Proofs.SamplingRepl Proofs.SamplingRes Proofs.SamplingShuffle
-     Proofs.SamplingRefute.
+     Proofs.SamplingCode Proofs.SamplingRefute Proofs.TreeGenUnif.
 Import ListNotations.
 Local Close Scope Q_scope.
 
@@ -97,13 +98,35 @@ Theorem C20_sample_replace_uniform :
 Proof. exact sample_replace_uniform. Qed.
 Print Assumptions C20_sample_replace_uniform.
 
-(** * reservoir sampling without replacement with the index rand.Intn(i+1): every k-subset of the
-    n items is the reservoir for exactly (n-k)! of the n!/k! choice vectors *)
-Theorem C20_reservoir_space_size :
-  forall n k, k <= n -> length (all_choices (reservoir_bounds std_bound k n)) * fact k = fact n.
-Proof. exact reservoir_space_size. Qed.
-Print Assumptions C20_reservoir_space_size.
+(** * gotree sample (no --replace) and gotree prune --random, as in the code: index
+    rand.Intn(i+1).  Every k-subset of the n items is the reservoir for exactly (n-k)! of the n!/k!
+    choice vectors (probability 1/C(n,k)) *)
+Example C20_code_index_expression : forall i, code_bound i = std_bound i.
+Proof. reflexivity. Qed.
+Print Assumptions C20_code_index_expression.
 
+Theorem C20_sample_space_size :
+  forall n k, k <= n -> length (all_choices (reservoir_bounds code_bound k n)) * fact k = fact n.
+Proof. exact sample_noreplace_space_size. Qed.
+Print Assumptions C20_sample_space_size.
+
+Theorem C20_sample_noreplace_uniform :
+  forall n k s, 1 <= k -> k <= n -> In s (subsets k (seq 0 n)) ->
+    count_where (fun cs => out_set_is s (sample_noreplace k (seq 0 n) cs))
+                (all_choices (reservoir_bounds code_bound k n)) = fact (n - k).
+Proof. exact sample_noreplace_uniform. Qed.
+Print Assumptions C20_sample_noreplace_uniform.
+
+(** randomTips is that loop on the positions of the tips, read back through Tips() *)
+Theorem C20_random_tips :
+  forall k t cs,
+    random_tips k t cs =
+    option_map (map (option_map (fun i => nth i (tip_names t) EmptyString)))
+               (sample_noreplace k (seq 0 (length (tip_names t))) cs).
+Proof. exact random_tips_positions. Qed.
+Print Assumptions C20_random_tips.
+
+(** the same for the loop parameterised by the index expression *)
 Theorem C20_reservoir_std_uniform :
   forall n k s, 1 <= k -> k <= n -> In s (subsets k (seq 0 n)) ->
     count_where (fun cs => out_set_is s (reservoir std_bound k (seq 0 n) cs))
@@ -119,33 +142,22 @@ Theorem C20_reservoir_items :
 Proof. exact @reservoir_map. Qed.
 Print Assumptions C20_reservoir_items.
 
-(** * FALSE of the code: cmd/sample.go (no --replace) and cmd/prune.go randomTips use
-    rand.Intn(i) when item i (0-based) arrives *)
-Example C20_code_index_expression : forall i, code_bound i = go_bound i.
-Proof. reflexivity. Qed.
-Print Assumptions C20_code_index_expression.
-
-Theorem C20_reservoir_go_refuted :
+(** * record of the fixed defect: statements about the OLD index expression [go_bound]
+    (rand.Intn(totaltrees) / rand.Intn(i)), NOT about the code any more *)
+Theorem C20_old_index_not_uniform :
   exists n k s s', 1 <= k /\ k <= n /\ In s (subsets k (seq 0 n)) /\ In s' (subsets k (seq 0 n)) /\
                    res_count go_bound n k s <> res_count go_bound n k s'.
 Proof. exact reservoir_go_refuted. Qed.
-Print Assumptions C20_reservoir_go_refuted.
+Print Assumptions C20_old_index_not_uniform.
 
-(** 2 items, 1 slot: item 0 is never selected, item 1 always *)
-Theorem C20_reservoir_go_witnesses :
-  res_count go_bound 2 1 [0] = 0 /\ res_count go_bound 2 1 [1] = 1 /\
-  res_count go_bound 3 1 [0] = 0 /\ res_count go_bound 4 2 [0; 1] = 0 /\ res_count go_bound 5 3 [0; 1; 2] = 0.
-Proof. exact reservoir_go_first_item_never. Qed.
-Print Assumptions C20_reservoir_go_witnesses.
-
-(** in general: with more than k items the sample always contains an item of index >= k, so the
-    first k items are never the sample (probability 0 instead of 1/C(n,k)) *)
-Theorem C20_reservoir_go_never_initial :
+(** with more than k items the sample always contained an item of index >= k: the first k items
+    were never the sample *)
+Theorem C20_old_index_never_initial :
   forall n k cs res, 1 <= k -> k < n -> in_bounds cs (reservoir_bounds go_bound k n) ->
     reservoir go_bound k (seq 0 n) cs = Some res ->
     existsb (fun s => match s with Some x => Nat.leb k x | None => false end) res = true.
 Proof. exact reservoir_go_never_initial. Qed.
-Print Assumptions C20_reservoir_go_never_initial.
+Print Assumptions C20_old_index_never_initial.
 
 (** * the "uniform" generator *)
 (** unrooted: as many choice vectors as unrooted labelled binary topologies, (2n-5)!! *)
@@ -153,6 +165,17 @@ Theorem C20_uniform_unrooted_space_size :
   forall n, 3 <= n -> length (all_choices (uniform_bounds n false)) = n_unrooted n.
 Proof. exact uniform_unrooted_space_size. Qed.
 Print Assumptions C20_uniform_unrooted_space_size.
+
+(** unrooted: different choice vectors give different labelled topologies, so the (2n-5)!!
+    equally likely choice vectors reach (2n-5)!! pairwise distinct topologies, each with
+    probability 1/(2n-5)!! *)
+Theorem C20_uniform_unrooted_injective :
+  forall n cs cs' ls ls' t t',
+    3 <= n -> in_bounds cs (uniform_bounds n false) -> in_bounds cs' (uniform_bounds n false) ->
+    uniform_tree n false cs ls = GOk t -> uniform_tree n false cs' ls' = GOk t' ->
+    topo_key false t = topo_key false t' -> cs = cs'.
+Proof. exact uniform_unrooted_injective. Qed.
+Print Assumptions C20_uniform_unrooted_injective.
 
 (** rooted: FALSE of the code.  The generator never inserts above the root: it has
     2*4*...*(2n-4) equally likely choice vectors for (2n-3)!! rooted topologies *)
